@@ -344,6 +344,7 @@ pub fn cmd_replay(args: &[String]) {
         let case: Value = serde_json::from_str(&line).expect("case json");
         ncases += 1;
         if idx % 20000 == 0 { rep.sample(case.clone()); }
+        rep.case(&line);
         if let Err(d) = replay_case(&case, idx as u64, seed, &mut rep) {
             let what = d["what"].as_str().unwrap_or("?").to_string();
             rep.fail(&what, json!({"divergence": d, "case": case, "case_index": idx, "seed": seed}));
@@ -487,6 +488,7 @@ pub fn cmd_tamper(args: &[String]) {
             let nprev = rng.below(3);
             idx += 1;
             if idx % stride != first { continue; }
+            rep.case(&format!("stream|{}|{}", mlen, adl));
             // libsodium produces the authentic ciphertext, after `nprev` earlier messages
             let (_, mut spush) = init_pair(&key, &header, 1);
             let mut prevs = vec![];
